@@ -6,6 +6,10 @@ R07.2 the group average runs over all operations and divides by their number.
 R07.3 in run(): irreducible K-points force symmetrisation before the per-K function is configured; the per-K result is
       symmetrised with the system's point group; the initial reduction and the refinement use the same flag.
 R07.4 = C08 (the declared parities that symmetrisation consumes are the parities of the evaluated expressions).
+R07.5 role agreement: wherever a TR-transform or an inversion-transform is handed over (keyword, positional constructor
+      argument, attribute store), the value handed to the `transformTR` slot does not name the inversion transform and
+      vice versa — over the whole package.
+R07.6 = R06.5 (the k-point action of an operation carries the TR and inversion signs).
 """
 from __future__ import annotations
 
@@ -13,6 +17,9 @@ import ast
 
 from ..index import AnalysisError, call_name, norm, norm1
 from . import c08
+from .c06 import kpoint_action
+from ..index import ClassInfo, FunctionInfo
+import re
 from .common import calls, enclosing, fctx, in_body, is_name, method_calls, pfind, pmatch, stmts
 
 LEVEL = "other"
@@ -31,6 +38,31 @@ TAB = "wannierberri/result/tabresult.py"
 RD = "wannierberri/result/resultdict.py"
 PS = "wannierberri/symmetry/point_symmetry.py"
 RG = "wannierberri/run_grid.py"
+
+
+_SLOT = {"transformTR": "TR", "transformInv": "Inv", "transform_TR": "TR", "transform_Inv": "Inv", "transform_I": "Inv"}
+_TR_TOKEN = re.compile(r"(?:^|_|transform)TR$|^TR_|time_?reversal", re.I)
+_INV_TOKEN = re.compile(r"(?:^|_|transform)Inv$|transform_I$|^Inv_|inversion", re.I)
+
+
+def _roles(e: ast.AST) -> set:
+    """Kinds (TR / Inv) named by the identifiers and string keys of an expression handed to a transform slot."""
+    out = set()
+    for n in ast.walk(e):
+        tok = None
+        if isinstance(n, ast.Name):
+            tok = n.id
+        elif isinstance(n, ast.Attribute):
+            tok = n.attr
+        elif isinstance(n, ast.Constant) and isinstance(n.value, str):
+            tok = n.value
+        if tok is None:
+            continue
+        if _TR_TOKEN.search(tok):
+            out.add("TR")
+        if _INV_TOKEN.search(tok):
+            out.add("Inv")
+    return out
 
 
 def run(ctx) -> None:
@@ -118,6 +150,56 @@ def run(ctx) -> None:
     r3.check("ifsymmetrize:print('SymmetrizationswitchedoffforPath')symmetrize=False" in tr.replace("\n", ""), "paths are never symmetrised", runf, runf.node,
              "symmetrisation is no longer switched off for paths", stmt="path no symmetrize")
 
+    # ---------------------------------------------------------------- R07.5
+    r5 = ctx.rule("R07.5", "transformTR / transformInv slots receive the transform of their own kind", min_instances=40)
+    n_sites = 0
+    for m in idx.modules.values():
+        if not m.relpath.startswith("wannierberri/"):
+            continue
+        owners = list(m.functions.values()) + [mm for c in m.classes.values() for mm in c.methods.values()]
+        for f in owners:
+            for n in ast.walk(f.node):
+                sites = []   # (slot role, value expr, description)
+                if isinstance(n, ast.Call):
+                    for k in n.keywords:
+                        if k.arg in _SLOT:
+                            sites.append((_SLOT[k.arg], k.value, f"{k.arg}="))
+                    if n.args and isinstance(n.func, (ast.Name, ast.Attribute)):
+                        tgt = None
+                        try:
+                            tgt = idx.resolve_expr(m, n.func)
+                        except Exception:
+                            tgt = None
+                        params = None
+                        if isinstance(tgt, ClassInfo):
+                            ini = idx.find_method(tgt, "__init__")
+                            params = ini.params[1:] if ini is not None else None
+                        elif isinstance(tgt, FunctionInfo):
+                            params = tgt.params
+                        if params:
+                            for i, a in enumerate(n.args):
+                                if i < len(params) and params[i] in _SLOT and not isinstance(a, ast.Starred):
+                                    sites.append((_SLOT[params[i]], a, f"positional {params[i]}"))
+                elif isinstance(n, ast.Assign) and len(n.targets) == 1 and isinstance(n.targets[0], ast.Attribute) \
+                        and n.targets[0].attr in _SLOT:
+                    sites.append((_SLOT[n.targets[0].attr], n.value, f".{n.targets[0].attr} ="))
+                for role, val, how in sites:
+                    n_sites += 1
+                    r5.instance(f"{f.short}: {how}{norm1(val, 50)}")
+                    got = _roles(val)
+                    other = "Inv" if role == "TR" else "TR"
+                    pm = fctx(f)[2] if other in got else None
+                    r5.check(other not in got, f"{how} slot of kind {role} receives {sorted(got) or 'a kind-neutral value'}", f,
+                             enclosing(pm, n, ast.stmt) if pm is not None and not isinstance(n, ast.stmt) else n,
+                             f"`{how}{norm1(val, 80)}`: the {'time-reversal' if role == 'TR' else 'inversion'} slot is given the "
+                             f"{'inversion' if role == 'TR' else 'time-reversal'} transform: quantities whose TR and inversion parities differ "
+                             f"(e.g. TR-odd, inversion-even pseudovectors) pick up the wrong sign under improper / magnetic operations, so "
+                             f"symmetrised and unsymmetrised results differ")
+    r5.note(f"{n_sites} hand-over sites examined")
+
+    # ---------------------------------------------------------------- R07.6
+    kpoint_action(ctx, "R07.6")
+
     # ---------------------------------------------------------------- R07.4
     c08.run(ctx)
 
@@ -125,6 +207,20 @@ def run(ctx) -> None:
 from ..selftest import V  # noqa: E402
 
 SELFTEST = [
+    V("seeded C07-m2: k-resolved static result gets the TR transform in the inversion slot", "wannierberri/calculators/static.py",
+      "return K__Result([restot], transformTR=formula.transformTR, transformInv=formula.transformInv,",
+      "return K__Result([restot], transformTR=formula.transformTR, transformInv=formula.transformTR,", "fire", "R07.5"),
+    V("tabulator swaps the two declared transforms", "wannierberri/calculators/tabulate.py",
+      "return KBandResult(rslt, transformTR=formula.transformTR, transformInv=formula.transformInv)",
+      "return KBandResult(rslt, transformTR=formula.transformInv, transformInv=formula.transformTR)", "fire", "R07.5"),
+    V("Matrix formulas: inversion parity looked up with the TR table", "wannierberri/data_K/data_K.py",
+      "transformInv=get_transform_Inv(name, commader),", "transformInv=get_transform_TR(name, commader),", "fire", "R07.5"),
+    V("K result restored from a dict with the keys crossed", KB, "transformInv=transform_from_dict(res, 'transformInv'),",
+      "transformInv=transform_from_dict(res, 'transformTR'),", "fire", "R07.5"),
+    V("seeded C07-m1: time reversal no longer flips k", PS, "* (self.iTR * self.iInv)", "* self.iInv", "fire", "R07.6"),
+    V("neutral: positional hand-over in the tabulator", "wannierberri/calculators/tabulate.py",
+      "return KBandResult(rslt, transformTR=formula.transformTR, transformInv=formula.transformInv)",
+      "return KBandResult(rslt, formula.transformTR, formula.transformInv)", "silent"),
     V("EnergyResult transformed with the inversion rule for TR", ER,
       "                                      transformTR=self.transformTR,\n                                      transformInv=self.transformInv),",
       "                                      transformTR=self.transformInv,\n                                      transformInv=self.transformInv),", "fire", "R07.1"),
